@@ -59,6 +59,10 @@ class Prop:
             x = r.random()
             if x < 0.28:
                 op = {"k": "set_via", "name": r.choice(names), "v": ctr[0], "bad": r.random() < 0.12}
+                if r.random() < 0.15:
+                    # the very object the attribute reads as now (w.size = w.size): for a
+                    # prototyped attribute this pins the value locally all the same
+                    op["same"] = True
             elif x < 0.56:
                 op = {"k": "set_on", "cand": r.randrange(ncand),
                       "attr": r.choice(["x", "y", "p_a", "p_pa", "q_b", "q_pb"]), "v": ctr[0]}
@@ -87,7 +91,7 @@ class Prop:
         return {"prop": ID, "seed": seed,
                 "config": {"ncand": ncand, "listen": listen, "proto_only": proto_only,
                            # where the deferring traits and __prefix__ are declared
-                           "child_cls": c.choice(["Child", "Child", "ChildSub", "ChildMixed"]),
+                           "child_cls": c.choice(["Child", "Child", "ChildSub", "ChildMixed", "ChildDflt"]),
                            # delegates that all compare equal (distinct objects)
                            "eq_targets": c.random() < 0.3},
                 "ops": ops}
@@ -140,8 +144,17 @@ class Prop:
         mids = [Mid(uid=k, inner=cands[m.mids[k]["inner"]]) for k in range(2)]
         self.names = sorted(PROTO_NAMES) if cfg.get("proto_only") else sorted(DEFER)
         from ..zoo11 import CHILD_CLASSES
-        child = (ProtoChild if cfg.get("proto_only")
-                 else CHILD_CLASSES[cfg.get("child_cls", "Child")])(parent=cands[0], mid=mids[0])
+        if not cfg.get("proto_only") and cfg.get("child_cls") == "ChildDflt":
+            # the links are never assigned (nor read by the harness): their default
+            # methods hand out the objects that exist already
+            from ..zoo11 import DEFAULTS
+            # (kept for the whole run: when the defaults are computed is not ours to say)
+            DEFAULTS["parent"], DEFAULTS["mid"] = cands[0], mids[0]
+            child = CHILD_CLASSES["ChildDflt"]()
+        else:
+            child = (ProtoChild if cfg.get("proto_only")
+                     else CHILD_CLASSES[cfg.get("child_cls", "Child")])(parent=cands[0],
+                                                                       mid=mids[0])
         held = [True] * ncand          # harness still references candidate j
         routed = []
         self._pushed = False
@@ -213,6 +226,11 @@ class Prop:
                     v = ("s%d" % op["v"]) if is_str else op["v"]
                     if op.get("bad"):
                         v = 5 if is_str else "bad"
+                    elif op.get("same"):
+                        v, e0 = sut(getattr, child, name)
+                        if e0 is not None:
+                            raise Violation("C11.mirror", "reading child.%s raised %r"
+                                            % (name, e0), i)
                     _, e = sut(setattr, child, name, v)
                     if op.get("bad"):
                         if not isinstance(e, TraitError):
@@ -344,6 +362,8 @@ class Prop:
         env.nontrivial = stats["notify_checked"] > 0 and stats["silence_checked"] > 0
 
     def cleanup(self):
+        from ..zoo11 import DEFAULTS
+        DEFAULTS["parent"] = DEFAULTS["mid"] = None
         if getattr(self, "_pushed", False):
             from traits.api import pop_exception_handler
             from traits.observation import api as oapi
